@@ -24,6 +24,12 @@ fn words_for(id: usize) -> [usize; 6] {
     w
 }
 
+impl Default for Payload {
+    fn default() -> Payload {
+        Payload::new(0)
+    }
+}
+
 impl Payload {
     fn new(id: usize) -> Payload {
         Payload { id, words: words_for(id) }
@@ -43,7 +49,11 @@ fn main() {
     let mut observed_set = 0usize;
     let mut winners = [0usize; 8];
     for round in 0..rounds {
-        let holder: Arc<SingletonHolder<Payload>> = Arc::new(SingletonHolder::new());
+        let holder: Arc<SingletonHolder<Payload>> = if round % 2 == 1 { Arc::new(SingletonHolder::default()) } else { Arc::new(SingletonHolder::new()) };
+        if holder.is_set() || holder.get().is_some() {
+            println!("HOLDER-ORACLE-FAILED round={} a freshly constructed holder reports 'set'", round);
+            std::process::exit(1);
+        }
         let go = Arc::new(AtomicBool::new(false));
         let failures = Arc::new(AtomicUsize::new(0));
         let mut joins = Vec::new();
